@@ -115,6 +115,9 @@ def run(repo, rep):
         rep.holds('R-TABLE', key + '::epoch', wm, 'reference epoch 2020-01-01')
     else:
         rep.violated('R-TABLE', key + '::epoch', wm, 'plate-motion reference epoch is %s, not 2020-01-01' % (ep,))
+    # 5b. conform14 and the wrappers keep no state between calls (a memo of the propagated set under a lossy key makes the result depend on the call history)
+    from . import common
+    common.state_rule(repo, rep, [('geodepy.transform', 'conform14'), ('geodepy.transform', 'transform_atrf2014_to_gda2020'), ('geodepy.transform', 'transform_gda2020_to_atrf2014')])
     # 5. __add__ is effect-free (the C09 analysis restricted to the constants module)
     pur = Purity(repo, ['geodepy.constants'])
     add = tcls.methods['__add__']
